@@ -48,9 +48,46 @@ func init() {
 	})
 }
 
-// orderInsensitiveMapRange: functions of the WASI region that range over a map for a stated order-insensitive purpose.
-var orderInsensitiveMapRange = map[string]string{
-	"internal/wasm.(Store).deleteModule": "copies every entry into a fresh map when shrinking the registry (proc_exit → close path): the result does not depend on the order",
+// mapCopyIdiom: the key/value of every iteration are only used as key/value of an update of another map (and the
+// loop test): the result does not depend on the iteration order.
+func mapCopyIdiom(r *ssa.Range) bool {
+	if r.Referrers() == nil {
+		return false
+	}
+	for _, u := range *r.Referrers() {
+		nx, ok := u.(*ssa.Next)
+		if !ok {
+			return false
+		}
+		if nx.Referrers() == nil {
+			continue
+		}
+		for _, e := range *nx.Referrers() {
+			ex, ok := e.(*ssa.Extract)
+			if !ok {
+				return false
+			}
+			if ex.Referrers() == nil {
+				continue
+			}
+			for _, use := range *ex.Referrers() {
+				switch x := use.(type) {
+				case *ssa.If:
+					if ex.Index != 0 {
+						return false
+					}
+				case *ssa.MapUpdate:
+					if x.Map == r.X {
+						return false
+					}
+				case *ssa.DebugRef:
+				default:
+					return false
+				}
+			}
+		}
+	}
+	return true
 }
 
 var purePkgs = map[string]bool{
@@ -246,8 +283,8 @@ func runC18(c *core.Ctx) {
 					if r, ok := in.(*ssa.Range); ok {
 						if _, isMap := r.X.Type().Underlying().(*types.Map); isMap {
 							name := core.SSAFuncName(fn)
-							if why, ok := orderInsensitiveMapRange[name]; ok {
-								c.Notef("R18.5 map range in %s accepted: %s", name, why)
+							if mapCopyIdiom(r) {
+								c.Notef("R18.5 map range in %s accepted: the loop only copies every entry into another map (order-insensitive)", name)
 								continue
 							}
 							sites = append(sites, fmt.Sprintf("%s ranges over a map at %s", name, c.Pos(r.Pos())))
